@@ -27,6 +27,7 @@ func checkC15(r *Run) {
 	ruleA13Filtered(r, p, map[string]bool{"": true}, "ab", func(root *ssa.Function) bool {
 		return root.Signature.Recv() != nil && typeIs(root.Signature.Recv().Type(), modPath, "TriggerLevelWriter")
 	})
+	ruleTLWCloseDrops(r, p)
 	r.Floor("A13a", 2)
 	r.Floor("A15a", 10)
 	r.Floor("TLW-PATH", 8)
@@ -391,4 +392,42 @@ func mayChangeBetween(pa Path, a, b ssa.Instruction, trig *ssa.Function) bool {
 		}
 	}
 	return false
+}
+
+// ruleTLWCloseDrops: Close discards the held lines whatever their size: every return of Close
+// leaves w.buf nil (the buffer is either back in the pool or — above the reuse limit — dropped).
+// A buffer that stays attached keeps lines of the closed request; the next trigger writes them out.
+func ruleTLWCloseDrops(r *Run, p *Prog) {
+	cl := p.Method("", "TriggerLevelWriter", "Close")
+	if !r.Anchor(cl != nil, "TLW-FRAME", "(*TriggerLevelWriter).Close") {
+		return
+	}
+	v := p.View(cl, "", nil)
+	paths, complete := enumPaths(v, 2, 5000)
+	isBuf := func(x ssa.Value) bool {
+		fv, base := loadedField(x)
+		return fv != nil && fname(fv) == "buf" && typeIs(base.Type(), modPath, "TriggerLevelWriter")
+	}
+	okAll, nRet := complete, 0
+	for _, pa := range paths {
+		if _, isRet := pa.Exit.(*ssa.Return); !isRet {
+			continue
+		}
+		nRet++
+		dropped := hasCmp(pa.Cmps(), func(op token.Token, x, y ssa.Value) bool {
+			return isBuf(x) && isNilConst(y) && op == token.EQL
+		})
+		for _, in := range pa.Instrs() {
+			if st, ok := in.(*ssa.Store); ok {
+				if fa, ok := st.Addr.(*ssa.FieldAddr); ok && typeIs(fa.X.Type(), modPath, "TriggerLevelWriter") && fname(fieldVar(fa)) == "buf" {
+					dropped = isNilConst(st.Val)
+				}
+			}
+		}
+		if !dropped {
+			okAll = false
+		}
+	}
+	okc := okAll && nRet > 0
+	r.Ob("TLW-FRAME", FnName(cl)+"/drops-held-lines", p.Pos(cl.Pos()), okc, true, tern(okc, "every return of Close leaves buf nil", "Close can return with the hold-back buffer still attached (e.g. when it grew above the reuse limit): its lines belong to the closed request and are written out by the next trigger"))
 }
